@@ -100,12 +100,27 @@ def run(ctx):
                 b[nm] = lo if a[nm] != lo else hi
                 extra.append(b)
         seen = {}
+        prev_codes = []
         for a in assigns + extra:
             c, err = engine.fresh_encode(p, a)
             ctx.count_eval(key=(name, tuple(sorted(a.items()))))
             if c is None:
                 continue
             rec = dict(a=a)
+            # == between keys that differ in every identifying parameter (independent of the string / integer forms, which some
+            # protocols cannot compute)
+            for a2, c2 in prev_codes[-6:]:
+                names_ = [k for k in a if ident_args is None or k in ident_args]
+                if names_ and all(a[k] != a2[k] for k in names_):
+                    try:
+                        eq = bool(c == c2)
+                    except Exception:  # noqa
+                        eq = False
+                    if eq:
+                        hits[name] = True
+                        ctx.report(name, 'different keys compare equal', dict(a), dict(protocol=name, params=a, other=a2))
+                        break
+            prev_codes.append((a, c))
             try:
                 rec['str'] = str(c)
                 rec['int'] = int(c)
@@ -143,6 +158,18 @@ def run(ctx):
                     ctx.report(name, 'code differs from its own normalised timings', dict(a), dict(protocol=name, params=a))
                 rec['got'] = got
             key = tuple(a[k] for k in sorted(a) if ident_args is None or k in ident_args)
+            rec['code'] = c
+            # == must agree with the identity string, whatever the protocol's _code_order is
+            for rec2 in list(seen.values())[:12]:
+                try:
+                    eq = bool(c == rec2['code'])
+                except Exception:  # noqa
+                    continue
+                if eq != (rec2['str'] == rec['str']):
+                    hits[name] = True
+                    ctx.report(name, 'equality of two codes disagrees with their identity strings', dict(a),
+                               dict(protocol=name, params=a, other=rec2['a'], str=[rec['str'], rec2['str']], equal=eq))
+                    break
             for key2, rec2 in seen.items():
                 if ident_args is None:
                     break
